@@ -28,6 +28,7 @@ from harness.tlaparse import iter_dump_states
 MC_CFG = """SPECIFICATION Spec
 CONSTANTS
   MaxLen = %(maxlen)d
+  MaxEnc = %(maxenc)d
   ComboIds <- AllIds
 INVARIANT Inert
 INVARIANT TwinInert
@@ -40,13 +41,14 @@ CHECK_DEADLOCK FALSE
 WITNESS_CFG = """SPECIFICATION Spec
 CONSTANTS
   MaxLen = 1
+  MaxEnc = 0
   ComboIds <- AllIds
 INVARIANT W_RawSitesInert
 CHECK_DEADLOCK FALSE
 """
 TIERS = {
-    "quick": dict(maxlen=3, tls_srcs=(), lists=["default"]),
-    "thorough": dict(maxlen=4, tls_srcs=("sel404", "urlsel", "dirname", "filename", "gmapurl"), lists=["default"]),
+    "quick": dict(maxlen=3, maxenc=2, tls_srcs=(), lists=["default"]),
+    "thorough": dict(maxlen=4, maxenc=3, tls_srcs=("sel404", "urlsel", "dirname", "filename", "gmapurl"), lists=["default"]),
 }
 S0, S1 = "zq", "qz"                      # sentinels around every planted segment
 FIXED_MTIME = 1_000_000_000
@@ -293,7 +295,15 @@ def run_case(job):
 
 def _names(d):
     nm = {"<": "LT", ">": "GT", "&": "AMP", '"': "DQ", "'": "SQ", "\r": "CR", "\n": "LF", "a": "a"}
-    return ".".join(nm.get(ch, "?") for ch in d) or "empty"
+    out = []
+    for ch in d:                                    # metacharacters by name, runs of other characters as they are
+        if ch in nm and ch != "a":
+            out.append(nm[ch])
+        elif out and out[-1][:1] in "%&#;0123456789abcdefghijklmnopqrstuvwxyzABCDEFGHIJKLMNOPQRSTUVWXYZ" and out[-1] not in nm.values():
+            out[-1] += ch
+        else:
+            out.append(ch)
+    return ".".join(out) or "empty"
 
 
 def case_id(job):
@@ -421,9 +431,10 @@ def main(chk, replay=None):
         "states": res["distinct"], "transitions": res["generated"], "exhaustive": True,
         "traces_validated_against_impl": tv["accepted"], "traces_rejected": len(tv["rejected"]),
         "evaluations": len(traces), "distinct_nontrivial": nontrivial,
-        "rule": "one case per done-state of MC_C13 (%d combos x every data string of length <= %d over < > & \" ' CR LF a)%s; "
+        "rule": "one case per done-state of MC_C13 (%d combos x every data string of length <= %d over < > & \" ' CR LF a, and of <= %d tokens over the "
+                "encoded forms %%3C %%22 %%26 %%0A %%253C %%2522 &lt; &quot; &#60; and a)%s; "
                 "non-trivial = distinct (page kind, skeleton, raw echoes) among the cases whose data was echoed at all "
-                "(%d cases); pages by kind: %s" % (len(COMBOS), t["maxlen"], " + TLS variants" if t["tls_srcs"] else "",
+                "(%d cases); pages by kind: %s" % (len(COMBOS), t["maxlen"], t["maxenc"], " + TLS variants" if t["tls_srcs"] else "",
                                                    echo_cases, kinds),
         "samples": [{"id": tr["id"], "events": tr["events"]} for tr in traces[:1] + traces[len(traces) // 2:len(traces) // 2 + 1]],
         "checker_cmd": res["cmd"] + " ; " + tv["cmd"], "trace_states": tv["states"],
